@@ -33,7 +33,7 @@ operand_sets:
         argument:
           size: 8
           byte_align: true
-instructions:
+{predefined}instructions:
   nop:
     bytecode:
       value: 0xEA
@@ -62,6 +62,9 @@ def programs(n_max):
     out.append(('fill_rows', 16, '    .fill 16, 0x55\n    .org 0x20\n    .fill 33, 0x66\n    nop\n'))
     out.append(('muted', 16, '    .byte 1, 2\n#mute\n    .fill 9, 7\n    nop\n#unmute\n    .byte 3, 4, 5, 6, 7, 8, 9\n    nop\n'))
     out.append(('wide', 24, '    .org 0x012340\n    .byte 1, 2, 3, 4, 5, 6, 7, 8\n    .org 0x012400\n    .cstr "hello, world"\n    nop\n'))
+    # a data block predefined by the ISA configuration (it is memory content like any other)
+    out.append(('predefined', 16, '    .org 0x10\n    nop\n    ldi 3\n',
+                'predefined:\n  data:\n    - name: buffer\n      address: 0x40\n      value: 0x5a\n      size: 9\n'))
     out.append(('backwards', 16, '    .org 0x80\n    .byte 9, 8, 7, 6, 5, 4, 3\n    .org 0x10\n    .byte 1, 2\n    nop\n'))
     return out
 
@@ -136,9 +139,10 @@ DECODERS = {'intel_hex': decode_intel_hex, 'hex': decode_hex_dump, 'minhex': dec
 
 
 def one(args):
-    name, bits, src = args
+    name, bits, src = args[:3]
+    predefined = args[3] if len(args) > 3 else ''
     with tempfile.TemporaryDirectory() as d:
-        open(os.path.join(d, 'isa.yaml'), 'w').write(CONFIG.format(bits=bits))
+        open(os.path.join(d, 'isa.yaml'), 'w').write(CONFIG.format(bits=bits, predefined=predefined))
         open(os.path.join(d, 'p.asm'), 'w').write(src)
         maps, image = {}, None
         for fmt in DECODERS:
